@@ -73,7 +73,10 @@ def run(ctx):
                 # only the infeasible error edges inside the recovery block are tolerated
                 a = r['atoms'][0]
                 under_some = any(x[0] == 'succ' and 'seed_nonce' in x[1] for x in r['ctx'])
-                tolerated = a[0] == 'succ' and (a[1].startswith('nonce(') or a[1].startswith('assign(')) and under_some
+                from . import roles
+                nf = {x.split('::')[-1] for x in roles.nonce_fns(ctx)}
+                head = a[1].split('(')[0] if a[0] == 'succ' else ''
+                tolerated = a[0] == 'succ' and (head in nf or head == 'assign') and under_some
                 key = 'R-C10-1/guard/%s' % a[1][:60]
                 if tolerated:
                     rep.ok('R-C10-1', key, 'tabled: error edge of %s inside the recovery block cannot fire (constant labels, bounded indices, mask length = extension degree)' % a[1].split('(')[0],
